@@ -285,8 +285,7 @@ def monitor(obs):
         if not any(p == s for p in it):
             v.append(("sampler-not-chosen-by-agent", f"batch {j + 1} ran sampler {s}, which does not match the agent's choices {pols} in order"))
             break
-    if obs.get("faults") and not v and ran != pols[:len(ran)]:
-        v.append(("sampler-not-chosen-by-agent", f"executed agent-chosen batches {ran} are not the agent's choices {pols} in order (a choice was skipped or used twice around a failed batch)"))
+    # (a choice that was never executed - its batch failed, or the session ended first - may be dropped or carried over: not this property's subject)
     rew = reference_rewards(obs["losses"]) if obs["losses"] else []
     if len(learns) > len(ran):
         v.append(("learn-unexecuted", f"agent learned {len(learns)} times for {len(ran)} executed agent-chosen batches: {learns} vs executed {ran}"))
